@@ -37,6 +37,7 @@ import Pumpkin.Check.Oracle
 import Pumpkin.Model.Predicate
 import Pumpkin.Model.Branching
 import Pumpkin.Model.Drcp
+import Pumpkin.Model.Dimacs
 import Pumpkin.Check.Rup
 import Pumpkin.Check.MaxSat
 import Pumpkin.Check.DrcpCheck
@@ -391,6 +392,28 @@ def respond (st : St) (line : String) : St × Option String :=
     | _ => (st, some "FAIL maxsat unparsed")
   | "same" :: tag :: a :: b :: _ =>
     (st, some (if a == b then s!"ok same {tag}" else s!"FAIL same {tag} {a} vs {b}"))
+  | "dimacs" :: n :: rest =>
+    -- `dimacs <n> b1 … bn :: <result of the real parser>`: exact correspondence with Model/Dimacs
+    (match n.toNat? with
+     | none => (st, some "FAIL dimacs unparsed")
+     | some k =>
+       let bytes := (rest.take k).filterMap String.toNat?
+       let impl := " ".intercalate (rest.drop (k + 1))
+       if bytes.length != k || (rest.drop k).head? != some "::" then (st, some "FAIL dimacs unparsed") else
+       let model := match Pumpkin.Dimacs.parseCnf bytes with
+         | .ok (nv, cs) =>
+           let body := cs.foldl (fun acc c => acc ++ s!" {c.length}" ++ c.foldl (fun a l => a ++ s!" {l}") "") ""
+           s!"ok {nv} {cs.length}" ++ body
+         | .error e => match e with
+           | .missingHeader => "err missingHeader"
+           | .invalidHeader => "err invalidHeader"
+           | .duplicateHeader => "err duplicateHeader"
+           | .unexpectedChar b => s!"err unexpectedChar {b}"
+           | .invalidLiteral => "err invalidLiteral"
+           | .unterminated => "err unterminated"
+           | .clauseCount e p => s!"err clauseCount {e} {p}"
+       if model == impl then (st, some s!"ok dimacs {(model.splitOn " ").take 2}")
+       else (st, some s!"FAIL dimacs model=[{model}] impl=[{impl}]"))
   | "litsok" :: _ => (st, some "ok litsok")
   | "negok" :: _ => (st, some "ok negok")
   | "panic" :: _ | "nonterm" :: _ | "partial" :: _ | "bad" :: _ | "branchviolation" :: _ | "hang" :: _ =>
